@@ -18,7 +18,8 @@ EXPLANATION = ("J2M.C10.mkLit_overflow_iff / fold_literals / literal_roundtrip_r
                "Extracted limits re-checked by the kernel (extracted_limits)")
 ASSUMPTIONS = ["CPython's evaluation of the emitted string tokens is what pyLexStr says (validated on every explored token)"]
 
-ALPHA = ["a", "b", "c", "Z", "0", " ", '"', "'", "\\", "\n", "\t", ",", "]", "[", "é", "ß", "日", "😀", " ", "\x7f", "\x01"]
+ALPHA = ["a", "b", "c", "Z", "0", " ", '"', "'", "\\", "\n", "\t", ",", "]", "[", "é", "ß", "日", "😀", "\xa0", "\x7f", "\x01",
+         "\u2028", "\u2029", "\x85", "\x0b", "\x0c", "\x1c", "\r"]
 
 
 def gen_strings(rng):
@@ -66,6 +67,9 @@ def correspondence(ctx, batch):
         job["maxLit"] = rng.randint(0, 16)
         job["layout"] = "flat"
         stages.stage_render(batch, [("Root", samples)], registry, common.cmps_choice(rng), [job])
+        if rng.random() < 0.3:
+            stages.stage_render(batch, [("Root", [{"inner": smp, "top": 1} for smp in samples])], registry, [],
+                                [dict(job, layout="nested")])
         stages.stage_mkunion(batch, [["lit", False, sorted(set(strings[:k]))] for k in (1, 2, len(strings))], registry)
         for s in strings[:3]:
             stages.stage_pylex(batch, s)
@@ -83,15 +87,24 @@ def find_literals(tp, out):
     return out
 
 
-def check_case(strings, with_null, job, registry, absent_at=None):
+def check_case(strings, with_null, job, registry, absent_at=None, nest=False):
     samples = [{"f": s, "g": 1} for s in strings] + ([{"f": None, "g": 1}] if with_null else [])
     if absent_at is not None:
         samples.insert(min(absent_at, len(samples)), {"g": 1})      # the position is optional by absence
+    if nest:
+        # the position sits in a model of its own below the root (a nested class in the nested layout)
+        samples = [{"inner": smp, "top": 1} for smp in samples]
     reg, text = real.run_library([("Root", samples)], registry, common.cmps_choice.__defaults__ or [], job) \
         if False else real.run_library([("Root", samples)], registry, [], job)
     ns = real.load_module(text)
     cls = ns["Root"]
-    ann = real.hints(cls, ns, [])
+    chain = []
+    if nest:
+        found = [(c, ch) for q, c, ch in real.collect_classes(ns) if c.__name__ == "Inner"]
+        if not found:
+            return {"kind": "module-does-not-load", "observed": "class Inner not found", "text": text}
+        cls, chain = found[0]
+    ann = real.hints(cls, ns, chain)
     name = "f"
     lits = find_literals(ann[name], [])
     P = plain_strings(registry, strings)
@@ -131,7 +144,8 @@ def falsify(ctx):
             strings, lim = sweep[i]
         else:
             strings, lim = gen_strings(rng), rng.choice(list(range(17)) + [20, 100])
-        job.update({"maxLit": lim, "layout": "flat", "preamble": None, "postInit": False})
+        nest = rng.random() < 0.3
+        job.update({"maxLit": lim, "layout": rng.choice(["flat", "nested"]) if nest else "flat", "preamble": None, "postInit": False})
         with_null = rng.random() < 0.2
         absent_at = rng.choice([None, None, 0, 1, len(strings)])
         if i >= len(sweep) and rng.random() < 0.25:
@@ -141,7 +155,7 @@ def falsify(ctx):
                 strings.reverse()
             absent_at = rng.choice([0, 0, 1, None])
         try:
-            hit = check_case(strings, with_null, job, registry, absent_at)
+            hit = check_case(strings, with_null, job, registry, absent_at, nest)
         except stages.TooCostly:
             ctx.count("skip:too-costly")
             continue
@@ -150,13 +164,14 @@ def falsify(ctx):
         ctx.case((tuple(strings), job["maxLit"], job["fw"]), nontrivial=len(set(strings)) >= 2)
         ctx.sample({"strings": strings, "maxLit": job["maxLit"], "fw": job["fw"]}, limit=3)
         if hit:
-            hit.update({"strings": strings, "with_null": with_null, "job": job, "absent_at": absent_at})
+            hit.update({"strings": strings, "with_null": with_null, "job": job, "absent_at": absent_at, "nest": nest})
             yield hit
 
 
 def replay(ctx, hit):
     try:
-        return check_case(hit["strings"], hit["with_null"], hit["job"], stages.make_registry(), hit.get("absent_at"))
+        return check_case(hit["strings"], hit["with_null"], hit["job"], stages.make_registry(), hit.get("absent_at"),
+                          hit.get("nest", False))
     except stages.TooCostly:
         raise
     except Exception as e:  # noqa
